@@ -332,3 +332,41 @@ Definition seg_boundedb (s : segment) : bool :=
   match s_root s with Some (lvl, n) => sn_boundedb lvl n | None => true end.
 Lemma seg_boundedb_bounded s : seg_boundedb s = true -> seg_bounded s.
 Proof. unfold seg_boundedb, seg_bounded. destruct (s_root s) as [[l n]|]; [apply boundedb_bounded|auto]. Qed.
+
+(* the same round trip with the metadata hypotheses only at the segment's own metadata *)
+Theorem codec_roundtrip_at (enc_meta : meta -> bytes) (dec_meta : bytes -> option meta) K s :
+  dec_meta (enc_meta (s_meta s)) = Some (s_meta s) -> (Nlen (enc_meta (s_meta s)) < 2 ^ 64)%N ->
+  seg_ok K s -> seg_bounded s -> s_root s <> None ->
+  s_deserialize dec_meta (s_serialize enc_meta s) = Some s.
+Proof.
+  intros Hrt Hshort Hok Hb Hne. unfold s_deserialize, s_serialize, seg_ok, seg_bounded in *.
+  destruct s as [[[lvl n]|] m]; cbn [s_root s_meta] in *; [|congruence].
+  destruct Hok as (Hl & Hwf & _).
+  rewrite uvarint_roundtrip by reflexivity.
+  rewrite uvarint_roundtrip by exact Hshort.
+  replace (Nlen (enc_meta m ++ ser_node lvl n) <? Nlen (enc_meta m))%N with false
+    by (unfold Nlen; rewrite app_length; lia).
+  unfold Nlen at 1. rewrite Nat2N.id. rewrite take_bytes_app. rewrite Hrt.
+  rewrite <- (app_nil_r (ser_node lvl n)) at 2.
+  rewrite dec_node_ser; auto.
+  pose proof (height_le_length lvl n). lia.
+Qed.
+
+(* arbitrary metadata: the reloaded segment is the original with its metadata passed through the pair *)
+Theorem codec_roundtrip_meta (enc_meta : meta -> bytes) (dec_meta : bytes -> option meta) K s m' :
+  dec_meta (enc_meta (s_meta s)) = Some m' -> (Nlen (enc_meta (s_meta s)) < 2 ^ 64)%N ->
+  seg_ok K s -> seg_bounded s -> s_root s <> None ->
+  s_deserialize dec_meta (s_serialize enc_meta s) = Some {| s_root := s_root s; s_meta := m' |}.
+Proof.
+  intros Hrt Hshort Hok Hb Hne. unfold s_deserialize, s_serialize, seg_ok, seg_bounded in *.
+  destruct s as [[[lvl n]|] m]; cbn [s_root s_meta] in *; [|congruence].
+  destruct Hok as (Hl & Hwf & _).
+  rewrite uvarint_roundtrip by reflexivity.
+  rewrite uvarint_roundtrip by exact Hshort.
+  replace (Nlen (enc_meta m ++ ser_node lvl n) <? Nlen (enc_meta m))%N with false
+    by (unfold Nlen; rewrite app_length; lia).
+  unfold Nlen at 1. rewrite Nat2N.id. rewrite take_bytes_app. rewrite Hrt.
+  rewrite <- (app_nil_r (ser_node lvl n)) at 2.
+  rewrite dec_node_ser; auto.
+  pose proof (height_le_length lvl n). lia.
+Qed.
